@@ -396,7 +396,8 @@ def _check(ctx: Ctx) -> None:
         rem_, bt_ = eroles["cur_bar_capacity_remaining"], eroles["cur_time_bar"]
         if g is not None and src(c.args[0]) == rem_ and f"{bt_} > 0" in src(g.test) and f"{rem_} > 0" in src(g.test) \
                 and isinstance(g.test, ast.BoolOp) and isinstance(g.test.op, ast.And):
-            ok = True
+            from ..astutil import extra_conditions
+            ok = not extra_conditions(c, g.test)
     ctx.check(ok, "CLOSE", "tokenise: a partly filled last bar is closed with rests up to its capacity", function=fe.qualname,
               construct="end-of-call bar closing missing or with a different condition/amount", message="", file=fe.file, node=fe.node)
     from .c03 import close_rule
